@@ -50,6 +50,29 @@ Python objects (`to_nx` alone would give plain ints):
 * `scale`: 9-12 nodes (one to four more than the random streams), node ids up to 10^6, max_mappings in {6, 10, 100}.
 * `repr-sub` / `repr-giso` / `repr-search`: the boolean sub-graph tests, `graph_isomorphism` and
   `find_subgraph_mappings(pre_filter=..)` on the inputs of their own generators, re-spelled the same way.
+
+Certificate streams (after all the others; the earlier draws are unchanged).  The specification side is computed per query,
+independently of the history, and a query history runs on shared graph / engine objects as before:
+* `find-small`: `graph_morphism.find_graph_isomorphism(G1, G2, use_defaults in {True, False, default}, fast_invariant_check in
+  {True, False, default})` — until now not exercised at all — against its Lean model `SynKit.GME.findGraphIsomorphism` (driver
+  `c07.findiso`; theorems find_iso_valid / find_iso_iff / find_iso_fast_irrelevant): a mapping is returned iff the model returns
+  one, with the quick invariants on and off, in both argument orders; every returned mapping is checked by Lean to be a G1 -> G2
+  bijection preserving adjacency and element / atom_map / hcount / order with their defaults (`isIsoB`, theorem isIsoB_iff).
+  Inputs <= 8 nodes: relabelled copies, one-edit neighbours (also of atom_map), labels permuted, unrelated, tiny classes; atom_map
+  absent / 0 / partly set; hcount, atom_map, order partly absent so that the defaults matter; element symbols that are prefixes
+  of one another (H / Hg / He, C / Cl).  A third of the cases also asks the other entry points through the certificate path and
+  the enumerating model at once, which ties the translation `spec_of` used by the `large` stream to the model.
+* `large`: every isomorphism / containment entry point (find_graph_isomorphism, graph_isomorphism, GraphMatcherEngine.isomorphic /
+  get_mappings, SubgraphMatch.subgraph_isomorphism / is_subgraph, graph_morphism.subgraph_isomorphism) on graphs beyond CPython's
+  small-integer cache — more than 256 nodes, more than 256 edges, both, and controls at 250..256 — where the enumerating Lean
+  engine is not run.  Answers are PLANTED and Lean checks certificates only (no search): a relabelled copy with its bijection
+  (`c07.certificate`, `isIsoB`: the verdict must be True, theorems isomorphic_of_certificate / find_iso_of_certificate /
+  get_mappings_of_certificate / subgraph_*_iff), the copy with one element replaced by a symbol that does not occur or with one
+  edge removed / one node added (`c07.invariants`: counts, degree sequence, label histograms differ, the verdict must be False,
+  theorems no_iso_of_invariants / not_contained_of_invariants / find_iso_none_of_invariants), a planted sub-pattern of more than
+  256 nodes (`isInducedB`); every mapping the implementation returns is checked by Lean; every pre-filter flag is asked off and on
+  and the verdicts must agree.  A violated planted isomorphism is shrunk along the bijection (nodes removed together with their
+  images while the implementation keeps failing), which exposes the size at which the failure starts.
 """
 import json
 
@@ -85,6 +108,19 @@ THEOREMS = [
     "SynKit.GME.preCheck_sound",
     "SynKit.GME.get_mappings_nonempty_iff_contained",
     "SynKit.GME.isomorphic_iff",
+    "SynKit.GME.isIsoB_iff",
+    "SynKit.GME.isInducedB_iff",
+    "SynKit.GME.isMonoB_iff",
+    "SynKit.GME.isomorphic_of_certificate",
+    "SynKit.GME.get_mappings_of_certificate",
+    "SynKit.GME.no_iso_of_invariants",
+    "SynKit.GME.not_contained_of_invariants",
+    "SynKit.GME.isomorphic_false_of_invariants",
+    "SynKit.GME.find_iso_valid",
+    "SynKit.GME.find_iso_iff",
+    "SynKit.GME.find_iso_fast_irrelevant",
+    "SynKit.GME.find_iso_of_certificate",
+    "SynKit.GME.find_iso_none_of_invariants",
     "SynKit.SubgraphSearch.prefilter_spec",
     "SynKit.SubgraphSearch.prefilter_zero_sound",
     "SynKit.SubgraphSearch.prefilter_zero_lossless",
@@ -1439,6 +1475,773 @@ def gen_degenerate(ctx, count):
     return out
 
 
+# ---------------------------------------------------------------- certificate streams
+# `find_graph_isomorphism` (small inputs: against its Lean model) and every isomorphism / containment entry point on
+# inputs beyond CPython's small-integer cache (more than 256 nodes or edges: the enumerating Lean engine is not run
+# there).  The specification side of a query is computed per query, independently of the history, from search-free Lean
+# commands: `c07.certificate` checks a GIVEN mapping (the planted bijection of a relabelled copy / the planted embedding
+# of a sub-pattern / every mapping the implementation returns) with `isIsoB` / `isInducedB` / `isMonoB`
+# (theorems isIsoB_iff, isInducedB_iff, isMonoB_iff); `c07.invariants` evaluates `isoInvariants` / `containInvariants`
+# (theorems no_iso_of_invariants, not_contained_of_invariants).  A checked mapping makes the demanded verdict True
+# (isomorphic_of_certificate, get_mappings_of_certificate, find_iso_of_certificate, subgraph_*_iff,
+# graph_isomorphism_iff), a failed invariant makes it False; otherwise the query is only gated metamorphically.
+FIND_KEYS = ["element", "atom_map", "hcount"]
+GISO_PREP = {"names": ["element", "charge"], "defaults": [{"s": "*"}, {"n": 0}], "edge_key": "order", "edge_default": {"n": 2}}
+
+
+def spec_of(q):
+    """How an entry-point query reads as a question about (host, pattern, selection, iso / induced / mono)."""
+    e = q["entry"]
+    if e == "find":  # the mapping goes G1 -> G2: G1 is the pattern of the Lean reading
+        d = q.get("use_defaults") is not False
+        return {"host": q["b"], "pattern": q["a"], "node_keys": FIND_KEYS if d else [], "edge_keys": ["order"] if d else [],
+                "hcount": False, "prep": "find" if d else None, "mode": "iso"}
+    if e == "giso":
+        d = bool(q.get("use_defaults"))
+        return {"host": q["a"], "pattern": q["b"], "node_keys": ["element", "charge"] if d else [], "edge_keys": ["order"] if d else [],
+                "hcount": False, "prep": GISO_PREP if d else None, "mode": "iso"}
+    if e in ("engine.iso", "engine.maps"):  # isomorphic(g1, g2): g1 plays host; get_mappings(host, pattern)
+        return {"host": q["a"], "pattern": q["b"], "node_keys": list(q["engine"]["node_attrs"]), "edge_keys": list(q["engine"]["edge_attrs"]),
+                "hcount": True, "prep": None, "mode": "iso" if e == "engine.iso" else "induced"}
+    if e == "sub":  # a = child, b = parent
+        c = model_sub_cfg(q["cfg"])
+        k = min(len(c["names"]), len(c["defaults"]))
+        return {"host": q["b"], "pattern": q["a"], "node_keys": c["names"][:k], "edge_keys": [c["edge_attr"]] if c["edge_attr"] else [],
+                "hcount": False, "prep": {"names": c["names"], "defaults": c["defaults"]}, "mode": "induced" if c["induced"] else "mono"}
+    raise ValueError(e)
+
+
+def _lean_sel(sp, enc):
+    """enc: the encoded graphs of the case (encoded once per case: the large ones are asked about many times)."""
+    r = {"host": enc[sp["host"]], "pattern": enc[sp["pattern"]],
+         "node_keys": sp["node_keys"], "edge_keys": sp["edge_keys"], "hcount": sp["hcount"]}
+    if sp["prep"] is not None:
+        r["prep"] = sp["prep"]
+    return r
+
+
+def cert_request(sp, graphs, enc, m):
+    """m: dict pattern node -> host node.  None when m is not even a function on the pattern's node set."""
+    pat = graphs[sp["pattern"]]
+    try:
+        if set(m) != set(pat.nodes):
+            return None
+        pairs = [[int(v), int(m[v])] for v in pat.nodes]
+    except (TypeError, ValueError):
+        return None
+    return {"cmd": "c07.certificate", **_lean_sel(sp, enc), "mapping": pairs, "mode": sp["mode"]}
+
+
+def planted_for(planted, sp):
+    """A planted mapping pattern -> host for this reading, if one is known (isomorphisms are known in both directions)."""
+    for pl in planted:
+        if pl["from"] == sp["pattern"] and pl["to"] == sp["host"] and (pl["kind"] == "iso" or sp["mode"] != "iso"):
+            return {u: v for u, v in pl["map"]}
+        if pl["kind"] == "iso" and pl["from"] == sp["host"] and pl["to"] == sp["pattern"]:
+            return {v: u for u, v in pl["map"]}
+    return None
+
+
+def model_request(q, graphs):
+    """The enumerating model's own answer (small inputs only)."""
+    a, b = graphs[q["a"]], graphs[q["b"]]
+    e = q["entry"]
+    if e == "find":
+        return {"cmd": "c07.findiso", "g1": graphio.graph(a), "g2": graphio.graph(b), "use_defaults": q.get("use_defaults") is not False}
+    if e == "giso":
+        return {"cmd": "c07.giso", "g1": graphio.graph(a), "g2": graphio.graph(b), "use_defaults": bool(q.get("use_defaults"))}
+    if e in ("engine.iso", "engine.maps"):
+        eng = {k: q["engine"][k] for k in ("node_attrs", "edge_attrs", "wl1_filter", "max_mappings")}
+        return hist_request([a, b], [{"op": "iso" if e == "engine.iso" else "maps", "engine": eng, "a": 0, "b": 1}])
+    return sub_request(a, b, q["cfg"])
+
+
+def model_verdict(q, mod):
+    """-> (verdict, exact number of embeddings demanded or None)"""
+    e = q["entry"]
+    if e == "find":
+        return (mod["on"] if q.get("fast") is not False else mod["off"]) is not None, None
+    if e == "giso":
+        return bool(mod), None
+    if e == "engine.iso":
+        return mod["pure"][0]["verdict"], None
+    if e == "engine.maps":
+        return mod["pure"][0]["n"] > 0, mod["pure"][0]["n"]
+    return mod["verdict"], None
+
+
+class _TooSlow(Exception):
+    pass
+
+
+def _alarm(*_):
+    raise _TooSlow()
+
+
+WATCHDOG_S = 60
+
+
+def impl_entry(graphs, q, engines):
+    """One entry-point call.  On large inputs a watchdog ends a call that runs for more than a minute (the generated families
+    take well under a second on the unchanged tree; VF2 has no time bound of its own): such a call is recorded as an error of its
+    own kind and never judged, so it can only ever suppress a gate."""
+    import signal
+    import threading
+
+    big = max(len(graphs[q["a"]]), len(graphs[q["b"]]), graphs[q["a"]].number_of_edges(), graphs[q["b"]].number_of_edges()) > 200
+    guard = big and threading.current_thread() is threading.main_thread() and hasattr(signal, "SIGALRM")
+    if not guard:
+        return _impl_entry(graphs, q, engines)
+    prev = signal.signal(signal.SIGALRM, _alarm)
+    signal.alarm(WATCHDOG_S)
+    try:
+        return _impl_entry(graphs, q, engines)
+    except _TooSlow:
+        return {"error": "watchdog", "watchdog": True}
+    finally:
+        signal.alarm(0)
+        signal.signal(signal.SIGALRM, prev)
+
+
+def _impl_entry(graphs, q, engines):
+    a, b = graphs[q["a"]], graphs[q["b"]]
+    e = q["entry"]
+    try:
+        if e == "find":
+            from synkit.Graph.Matcher.graph_morphism import find_graph_isomorphism
+            kw = {}
+            if q.get("use_defaults") is not None:
+                kw["use_defaults"] = q["use_defaults"]
+            if q.get("fast") is not None:
+                kw["fast_invariant_check"] = q["fast"]
+            m = find_graph_isomorphism(a, b, **kw)
+            if m is not None and not isinstance(m, dict):
+                return {"error": f"returned {type(m).__name__}, neither a dict nor None"}
+            return {"verdict": m is not None, "maps": [] if m is None else [dict(m)]}
+        if e == "giso":
+            from synkit.Graph.Matcher.graph_morphism import graph_isomorphism
+            return {"verdict": bool(graph_isomorphism(a, b, use_defaults=bool(q.get("use_defaults"))))}
+        if e in ("engine.iso", "engine.maps"):
+            key = json.dumps(q["engine"], sort_keys=True)
+            if key not in engines:
+                engines[key] = mk_engine(q["engine"])
+            if e == "engine.iso":
+                return {"verdict": bool(engines[key].isomorphic(a, b))}
+            res = [dict(m) for m in engines[key].get_mappings(a, b)]
+            return {"verdict": len(res) > 0, "maps": res}
+        r = impl_sub(q["which"], a, b, q["cfg"])
+        return r if "error" in r else {"verdict": r["verdict"]}
+    except _TooSlow:
+        raise
+    except RecursionError as ex:
+        return {"error": "RecursionError: " + str(ex)[:100]}
+    except Exception as ex:
+        return {"error": type(ex).__name__ + ": " + str(ex)[:200]}
+
+
+def _flagless(q):
+    """The query with its cheap pre-filter flag removed: queries equal up to it must get the same verdict."""
+    q = json.loads(json.dumps(q))
+    q.pop("fast", None)
+    if "engine" in q:
+        q["engine"].pop("wl1_filter", None)
+        q["engine"].pop("instance", None)
+    if "cfg" in q:
+        q["cfg"].pop("use_filter", None)
+    q.pop("which", None)  # the three boolean sub-graph entry points answer the same question
+    return json.dumps(q, sort_keys=True)
+
+
+def _mkey(m):
+    try:
+        return json.dumps(sorted([int(k), int(v)] for k, v in m.items()))
+    except (TypeError, ValueError):
+        return repr(sorted(m.items(), key=repr))
+
+
+def _cert_prepare(graphs, planted, queries, with_model):
+    """Run the implementation on the shared graph objects, build the Lean requests of the specification side."""
+    snap = [g.copy() for g in graphs]
+    engines = {}
+    impls = [impl_entry(graphs, q, engines) for q in queries]
+    mutated = any(not matchgen.graphs_equal(x, y) for x, y in zip(graphs, snap))
+    graphs = snap  # the specification side reads the inputs as they were handed in
+    enc = [graphio.graph(g) for g in graphs]
+    reqs, slots = [], []
+    for i, q in enumerate(queries):
+        sp = spec_of(q)
+        pl = planted_for(planted, sp)
+        cand = [("inv", None, {"cmd": "c07.invariants", **_lean_sel(sp, enc)})]
+        if pl is not None:
+            cand.append(("planted", None, cert_request(sp, graphs, enc, pl)))
+        if with_model:
+            cand.append(("model", None, model_request(q, graphs)))
+        for j, m in enumerate(impls[i].get("maps", [])):
+            cand.append(("ret", j, cert_request(sp, graphs, enc, m)))
+        for kind, j, r in cand:
+            if r is not None:
+                slots.append((i, kind, j))
+                reqs.append(r)
+    return {"graphs": graphs, "queries": queries, "impls": impls, "mutated": mutated, "slots": slots, "with_model": with_model}, reqs
+
+
+def _cert_judge(prep, reps):
+    graphs, queries, impls, with_model = prep["graphs"], prep["queries"], prep["impls"], prep["with_model"]
+    info = [{"planted": None, "inv": None, "model": None, "ret": {}} for _ in queries]
+    for (i, kind, j), rep in zip(prep["slots"], reps):
+        if kind == "ret":
+            info[i]["ret"][j] = rep
+        else:
+            info[i][kind] = rep
+    out = []
+    for i, q in enumerate(queries):
+        sp, inf, impl = spec_of(q), info[i], impls[i]
+        rec = {"impl": {k: (v if k != "maps" else len(v)) for k, v in impl.items()}, "spec": None, "why": None, "kind": "spec", "by": None}
+        inv_no = not inf["inv"]["iso" if sp["mode"] == "iso" else "contain"]
+        if not inf["inv"]["wf"]:
+            rec["why"], rec["kind"] = "harness: an input graph is not well formed", "model"
+        elif inf["planted"] and inv_no:
+            rec["why"], rec["kind"] = "model: a checked mapping exists although an invariant differs (theorem no_iso_of_invariants contradicted)", "model"
+        if inf["planted"]:
+            rec["spec"], rec["by"] = True, "planted mapping checked by Lean"
+        elif inv_no:
+            rec["spec"], rec["by"] = False, "an invariant (counts / degree sequence / label histogram) differs"
+        demanded_n = None
+        if with_model:
+            mv, demanded_n = model_verdict(q, inf["model"])
+            if rec["spec"] is not None and rec["spec"] != mv and rec["why"] is None:
+                rec["why"], rec["kind"] = (f"model: the enumerating model answers {mv}, the certificate path {rec['spec']} "
+                                           "(theorems *_of_certificate / *_of_invariants contradicted, or `spec_of` mistranslates the entry point)"), "model"
+            if q["entry"] == "find" and (inf["model"]["on"] is None) != (inf["model"]["off"] is None) and rec["why"] is None:
+                rec["why"], rec["kind"] = "model: the quick invariants change the model's verdict (theorem find_iso_fast_irrelevant contradicted)", "model"
+            if rec["spec"] is None:
+                rec["spec"], rec["by"] = mv, "enumerating Lean model"
+        if rec["why"] is None:
+            rec["why"] = judge_entry(q, sp, impl, rec["spec"], inf["ret"], demanded_n, graphs)
+        out.append(rec)
+    if prep["mutated"] and all(r["why"] is None for r in out):
+        out[-1]["why"] = "an input graph was modified"
+    # metamorphic: queries equal up to the pre-filter flag get equal verdicts (also where the specification is undetermined)
+    seen = {}
+    for i, (q, rec) in enumerate(zip(queries, out)):
+        if "error" in impls[i] or rec["why"] is not None:
+            continue
+        k = (_flagless(q), q["a"], q["b"])
+        if k in seen and seen[k][1] != impls[i]["verdict"]:
+            rec["why"] = (f"turning the cheap pre-filter on / off changed the verdict: {impls[i]['verdict']} here, "
+                          f"{seen[k][1]} for query #{seen[k][0]} which differs only in the filter flag")
+        seen.setdefault(k, (i, impls[i]["verdict"]))
+    return out
+
+
+def run_cert_cases(ctx, cases, with_model):
+    """cases: [(graphs, planted, queries)] -> per case the list of per-query records {impl, spec (True / False / None), by,
+    why (None = fine), kind ("spec": the property is violated on this input / "model": the Lean side contradicts itself)}.
+    One batched Lean call for all cases: the specification side never depends on the history."""
+    preps, allreqs, cuts = [], [], []
+    for graphs, planted, queries in cases:
+        prep, reqs = _cert_prepare(graphs, planted, queries, with_model)
+        preps.append(prep)
+        cuts.append((len(allreqs), len(allreqs) + len(reqs)))
+        allreqs += reqs
+    keys = [json.dumps(r, sort_keys=True) for r in allreqs]  # queries differing only in a filter flag share their specification
+    first = {}
+    for i, k in enumerate(keys):
+        first.setdefault(k, i)
+    uniq = sorted(first.values())
+    uniq = [i for r in range(8) for i in uniq[r::8]]  # the driver shards by contiguous ranges: spread the large cases over the shards
+    pos = {i: n for n, i in enumerate(uniq)}
+    ureps = ctx.lean().ok([allreqs[i] for i in uniq], shards=8)
+    reps = [ureps[pos[first[k]]] for k in keys]
+    return [_cert_judge(prep, reps[a:b]) for prep, (a, b) in zip(preps, cuts)]
+
+
+def run_cert_case(ctx, graphs, planted, queries, with_model):
+    return run_cert_cases(ctx, [(graphs, planted, queries)], with_model)[0]
+
+
+def judge_entry(q, sp, impl, spec, ret, demanded_n, graphs):
+    if impl.get("watchdog"):
+        return None
+    if "error" in impl:
+        if q["entry"].startswith("engine") and not backend_supported(q["engine"]):
+            return None
+        return "raised " + impl["error"]
+    what = {"iso": "a label-preserving bijection", "induced": "an induced embedding", "mono": "a monomorphic embedding"}[sp["mode"]]
+    if spec is not None and q["entry"] != "engine.maps" and impl["verdict"] != spec:
+        return f"verdict {impl['verdict']}; {what} {'exists' if spec else 'does not exist'}"
+    maps = impl.get("maps", [])
+    if maps:
+        keys = [_mkey(m) for m in maps]
+        if len(set(keys)) < len(keys):
+            return "embeddings contain duplicates"
+        for j, m in enumerate(maps):
+            if ret.get(j) is not True:
+                return f"returned mapping #{j} is not {what} of the pattern into the host (checked by Lean: isIsoB / isInducedB)"
+    if q["entry"] == "engine.maps":
+        mm = q["engine"]["max_mappings"]
+        a, b = graphs[q["a"]], graphs[q["b"]]
+        same = a.number_of_nodes() == b.number_of_nodes() and a.number_of_edges() == b.number_of_edges()
+        if demanded_n is not None:
+            if len(maps) != demanded_n:
+                return f"{len(maps)} embedding(s) returned, the property demands {demanded_n} (max_mappings={mm})"
+        else:
+            if spec is True and mm != 0 and not maps:
+                return "no embedding returned although the pattern is contained (planted embedding checked by Lean)"
+            if spec is False and maps:
+                return "embeddings returned although the pattern is not contained"
+            if not same and mm is not None and len(maps) > mm:
+                return f"{len(maps)} embeddings returned, max_mappings={mm}"
+            if same and len(maps) > 1:
+                return f"{len(maps)} embeddings returned for graphs of equal size (one is documented)"
+    return None
+
+
+def cert_case(graphs, planted, queries, with_model):
+    return {"kind": "cert", "graphs": [graphio.graph(g) for g in graphs], "planted": planted, "queries": queries, "model": with_model}
+
+
+def _restrict(graphs, planted, queries):
+    """Keep only the graph objects the queries look at."""
+    used = sorted({q[k] for q in queries for k in ("a", "b")})
+    idx = {old: new for new, old in enumerate(used)}
+    qs = [{**q, "a": idx[q["a"]], "b": idx[q["b"]]} for q in queries]
+    pls = [{**pl, "from": idx[pl["from"]], "to": idx[pl["to"]]} for pl in planted if pl["from"] in idx and pl["to"] in idx]
+    return [graphs[i] for i in used], pls, qs
+
+
+def shrink_planted(ctx, graphs, planted, q):
+    """A planted isomorphism the implementation does not recognise: remove nodes together with their images, in chunks,
+    while the implementation keeps failing; the specification side of the result is re-checked by Lean afterwards."""
+    pl = next((p for p in planted if p["kind"] == "iso" and {p["from"], p["to"]} == {q["a"], q["b"]}), None)
+    if pl is None or q["a"] == q["b"]:
+        return graphs, planted
+    gi, hi = pl["from"], pl["to"]
+    g, h, f = graphs[gi].copy(), graphs[hi].copy(), {u: v for u, v in pl["map"]}
+    want = spec_of(q)["mode"] == "iso"
+
+    def still_fails(g2, h2):
+        gs = list(graphs)
+        gs[gi], gs[hi] = g2, h2
+        r = impl_entry(gs, q, {})
+        return "error" not in r and r["verdict"] is False
+
+    if not want or not still_fails(g, h):
+        return graphs, planted
+    budget, chunk = 60, max(1, len(g) // 4)
+    while chunk >= 1 and budget > 0:
+        nodes = list(g.nodes)
+        i, progressed = 0, False
+        while i < len(nodes) and budget > 0 and len(g) > 1:
+            part = [v for v in nodes[i:i + chunk] if v in g]
+            i += chunk
+            if not part or len(part) >= len(g):
+                continue
+            g2, h2 = g.copy(), h.copy()
+            g2.remove_nodes_from(part)
+            h2.remove_nodes_from([f[v] for v in part])
+            budget -= 1
+            if still_fails(g2, h2):
+                g, h, progressed = g2, h2, True
+        if not progressed or chunk == 1:
+            chunk //= 2
+    gs = list(graphs)
+    gs[gi], gs[hi] = g, h
+    return gs, [{**pl, "map": [[u, v] for u, v in pl["map"] if u in g]}]
+
+
+def eval_cert(ctx, cases, tag, with_model):
+    """cases: list of (graphs, planted, queries, shape)"""
+    if not cases:
+        return
+    allrecs = run_cert_cases(ctx, [(g, p, q) for g, p, q, _ in cases], with_model)
+    for (graphs, planted, queries, shape), recs in zip(cases, allrecs):
+        ctx.count("stream:" + tag)
+        ctx.count("shape:" + shape)
+        for q, r in zip(queries, recs):
+            a, b = graphs[q["a"]], graphs[q["b"]]
+            n, m = max(len(a), len(b)), max(a.number_of_edges(), b.number_of_edges())
+            ctx.count(f"cert:{q['entry']}:spec={r['spec']}" + (f" ({r['by']})" if r["by"] else ""))
+            ctx.count("cert_size:" + ("nodes>256,edges>256" if n > 256 and m > 256 else "nodes>256" if n > 256 else "edges>256" if m > 256
+                                      else "nodes,edges in 250..256" if max(n, m) >= 250 else "small"))
+            if r["impl"].get("watchdog"):
+                ctx.count("cert_watchdog(call not judged)")
+            if q["entry"] == "find":
+                ctx.count(f"find:use_defaults={q.get('use_defaults')}:fast={q.get('fast')}:{'mapping' if r['impl'].get('verdict') else 'None'}")
+        pos = sum(1 for r in recs if r["spec"])
+        ctx.case([[graphio.graph(g) for g in graphs], queries], pos >= 1 and max(len(g) for g in graphs) >= 2,
+                 sample={"stream": tag, **cert_case(graphs, planted, queries[:2], with_model)} if max(len(g) for g in graphs) <= 3 else None)
+        bad = next((i for i, r in enumerate(recs) if r["why"] is not None), None)
+        if bad is None:
+            continue
+        rec, q = recs[bad], queries[bad]
+        if rec["kind"] == "model":
+            ctx.violation(rec["why"], cert_case(*_restrict(graphs, planted, [q]), with_model), {"stream": tag}, no_input=True)
+        else:
+            report_cert(ctx, graphs, planted, queries[:bad + 1], rec, tag, with_model)
+        if len(ctx.violations) >= 3:
+            return
+
+
+def report_cert(ctx, graphs, planted, queries, rec, tag, with_model):
+    q = queries[-1]
+    # 1. does the failure need the history?
+    gs1, pl1, qs1 = _restrict(graphs, planted, [q])
+    alone = run_cert_case(ctx, [g.copy() for g in gs1], pl1, qs1, with_model)[-1]
+    if alone["why"] is not None and alone["kind"] == "spec":
+        graphs, planted, queries, rec = gs1, pl1, qs1, alone
+    else:
+        graphs, planted, queries = _restrict(graphs, planted, queries)
+    if len(queries) == 1:
+        q = queries[0]
+        if with_model and q["a"] != q["b"]:  # small: minimise the two graphs against the enumerating model
+            def fails(ga, gb):
+                gs = list(graphs)
+                gs[q["a"]], gs[q["b"]] = ga, gb
+                r = run_cert_case(ctx, gs, [], [q], True)[-1]
+                return r["why"] is not None and r["kind"] == "spec" and "error" not in r["impl"]
+            try:
+                ga, gb = matchgen.shrink_pair(graphs[q["a"]], graphs[q["b"]], fails, budget=60)
+                gs = list(graphs)
+                gs[q["a"]], gs[q["b"]] = ga, gb
+                if len(ga) == len(gb):
+                    ga, gb = shrink_both(ga, gb, fails, budget=40)
+                    gs[q["a"]], gs[q["b"]] = ga, gb
+                r2 = run_cert_case(ctx, [g.copy() for g in gs], [], [q], True)[-1]
+                if r2["why"] is not None and r2["kind"] == "spec":
+                    graphs, planted, rec = gs, [], r2
+            except Exception:
+                pass
+        elif rec["spec"] is True and rec["impl"].get("verdict") is False:  # large: shrink along the planted bijection
+            gs, pls = shrink_planted(ctx, graphs, planted, q)
+            r2 = run_cert_case(ctx, [g.copy() for g in gs], pls, [q], with_model)[-1]
+            if r2["why"] is not None and r2["kind"] == "spec" and r2["spec"] is True:
+                graphs, planted, rec = gs, pls, r2
+    a, b = graphs[queries[-1]["a"]], graphs[queries[-1]["b"]]
+    ctx.violation({"find": "find_graph_isomorphism", "giso": "graph_isomorphism", "engine.iso": "GraphMatcherEngine.isomorphic",
+                   "engine.maps": "GraphMatcherEngine.get_mappings", "sub": "boolean sub-graph test"}[queries[-1]["entry"]]
+                  + " departs from the specification", cert_case(graphs, planted, queries, with_model),
+                  {"clause": rec["why"], "stream": tag, "query": queries[-1], "history_dependent": len(queries) > 1,
+                   "implementation": rec["impl"], "specification": {"verdict": rec["spec"], "established_by": rec["by"]},
+                   "sizes": {"a": [a.number_of_nodes(), a.number_of_edges()], "b": [b.number_of_nodes(), b.number_of_edges()]}})
+
+
+# ---- generators for the certificate streams
+ENTRY_ENGINES = [["element"], ["element", "charge"], [], ["charge", "element"], ["element", "hcount"], ["hcount"], ["atom_map", "element"]]
+FRESH_ELEMENTS = ["S", "Hg", "Cl", "Si", ""]
+
+
+def rand_find_queries(rnd, a, b, both_orders=True, need_labels=False):
+    """`find_graph_isomorphism(a, b)`: every use_defaults choice drawn is asked with the quick invariants off and on (or left at
+    their default).  need_labels: only the label-comparing configurations (on large irregular graphs VF2 itself does not finish a
+    structure-only comparison in reasonable time)."""
+    qs = []
+    opts = [True, None] if need_labels else [True, False, None]
+    for d in rnd.sample(opts, rnd.choice([1, 2, 2, 3][:len(opts) + 1])):
+        for fast in (False, rnd.choice([True, None])):
+            qs.append({"entry": "find", "a": a, "b": b, "use_defaults": d, "fast": fast})
+        if both_orders and rnd.random() < 0.6:
+            qs.append({"entry": "find", "a": b, "b": a, "use_defaults": d, "fast": rnd.choice([True, None, False])})
+    return qs
+
+
+def rand_entry_queries(rnd, a, b, both_orders, has_h, has_am, k, maps_cap=(1, None, 2, 5), sub_modes=(True, False), need_labels=False, sub_ok=True):
+    """k queries over the other entry points for the pair (a, b); every pre-filter flag is asked on and off."""
+    qs = []
+    for _ in range(k):
+        x, y = (b, a) if both_orders and rnd.random() < 0.35 else (a, b)
+        r = rnd.random()
+        if r < 0.2:
+            qs.append({"entry": "giso", "a": x, "b": y, "use_defaults": need_labels or rnd.random() < 0.6})
+        elif r < 0.6 or not sub_ok:
+            na = rnd.choice([s for s in ENTRY_ENGINES if (has_h or "hcount" not in s) and (has_am or "atom_map" not in s)
+                             and (not need_labels or "element" in s)])
+            e = {"node_attrs": na, "edge_attrs": ["order"] if need_labels else rnd.choice(EDGE_ATTRS), "wl1_filter": False,
+                 "max_mappings": rnd.choice(list(maps_cap))}
+            entry = "engine.iso" if rnd.random() < 0.6 else "engine.maps"
+            if entry == "engine.maps":
+                x, y = a, b
+            for wl in rnd.sample([False, True], 2):
+                qs.append({"entry": entry, "a": x, "b": y, "engine": {**e, "wl1_filter": wl}})
+        else:
+            cfg = {"names": ["element", "charge"], "defaults": [{"s": "*"}, {"n": 0}],
+                   "edge_attr": "order" if need_labels else rnd.choice(["order", "order", None]), "induced": rnd.choice(list(sub_modes))}
+            if rnd.random() < 0.3:
+                cfg["names"], cfg["defaults"] = rnd.choice([(["element"], [{"s": "*"}]), (["charge", "element"], [{"n": 0}, {"s": "C"}])]
+                                                           + ([] if need_labels else [([], [])]))
+            which = rnd.choice(["graph_morphism", "SubgraphMatch", "is_subgraph"]) if cfg["edge_attr"] else "graph_morphism"
+            for f in rnd.sample([False, True], 2):
+                qs.append({"entry": "sub", "which": which, "a": b, "b": a, "cfg": {**cfg, "use_filter": f}})  # child b in parent a
+    return qs
+
+
+def set_atom_maps(rnd, g, mode):
+    """atom_map as find_graph_isomorphism's default matcher reads it: absent (default 0), 0, or a few mapped atoms."""
+    nodes = list(g.nodes)
+    if mode == "zero":
+        for v in nodes:
+            g.nodes[v]["atom_map"] = 0
+    elif mode == "some":
+        picks = rnd.sample(nodes, min(len(nodes), rnd.randint(1, 3)))
+        for v in nodes:
+            if rnd.random() < 0.5:
+                g.nodes[v]["atom_map"] = 0
+        for i, v in enumerate(picks):
+            g.nodes[v]["atom_map"] = rnd.choice([i + 1, 1, 12])
+    return g
+
+
+def gen_find_small(ctx, tiny, count):
+    """Small pairs for `find_graph_isomorphism` (and, as a cross-check of `spec_of`, the other entry points): relabelled copies
+    with the planted bijection, one-edit neighbours, labels permuted, unrelated; atom_map absent / 0 / partly set; hcount and
+    bond orders partly absent (the defaults 0 and 1 matter); tiny classes against each other."""
+    rnd = ctx.rnd
+    out = []
+    for i in range(count):
+        r = rnd.random()
+        if r < 0.2:
+            g1 = rnd.choice(tiny).copy()
+            full_attrs(g1)
+        elif r < 0.32:
+            g1 = full_attrs(matchgen.symmetric_family(rnd, rnd.choice(["cycle", "star", "path", "kab", "rep"]), rnd.randint(2, 7)))
+        elif r < 0.45:
+            g1 = full_attrs(matchgen.multi_component(rnd, [rnd.randint(1, 3) for _ in range(rnd.randint(2, 3))], elems=["C", "C", "N"]))
+        else:
+            g1 = full_attrs(matchgen.mol_like(rnd, rnd.randint(1, 8), elems=rnd.choice([["C", "C", "N", "O"], ["C"], ["H", "Hg", "He", "C", "Cl"]]),
+                                              hcount_absent_p=rnd.choice([0.0, 0.3, 1.0])))
+        am = rnd.choice(["absent", "absent", "zero", "some", "some"])
+        set_atom_maps(rnd, g1, am)
+        planted = []
+        r = rnd.random()
+        if r < 0.4:
+            g2, f = matchgen.relabelled_copy(rnd, g1)
+            planted = [{"from": 0, "to": 1, "kind": "iso", "map": [[int(u), int(v)] for u, v in f.items()]}]
+            shape = "relabelled"
+        elif r < 0.7:
+            g2, _ = matchgen.relabelled_copy(rnd, g1)
+            if rnd.random() < 0.3 and len(g2):
+                v = rnd.choice(list(g2.nodes))
+                g2.nodes[v]["atom_map"] = g2.nodes[v].get("atom_map", 0) + rnd.choice([1, 12])
+                shape = "one-edit:atom_map"
+            else:
+                g2, kind = matchgen.one_edit(rnd, g2)
+                shape = "one-edit:" + kind
+        elif r < 0.8:
+            g2, _ = matchgen.relabelled_copy(rnd, permute_labels(rnd, g1))
+            shape = "labels-permuted"
+        elif r < 0.9:
+            g2 = set_atom_maps(rnd, full_attrs(matchgen.mol_like(rnd, len(g1), ids=range(50, 50 + len(g1)), elems=["C", "N"])), am)
+            shape = "unrelated-same-size"
+        else:
+            g2 = full_attrs(matchgen.mol_like(rnd, rnd.randint(1, 8), ids=range(50, 58), elems=["C", "N"]))
+            shape = "unrelated"
+        if rnd.random() < 0.4:  # absent values and their defaults: atom_map 0, hcount 0, order 1 (spelled 1 or 1.0)
+            for g in (g1, g2):
+                for v in g.nodes:
+                    if g.nodes[v].get("atom_map") == 0 and rnd.random() < 0.5:
+                        del g.nodes[v]["atom_map"]
+                    if g.nodes[v].get("hcount") == 0 and rnd.random() < 0.5:
+                        del g.nodes[v]["hcount"]
+                for u, v in g.edges:
+                    if g[u][v].get("order") == 1.0 and rnd.random() < 0.5:
+                        del g[u][v]["order"]
+            planted = []  # the planted mapping is only a certificate of the attribute dicts as they were
+            shape += "+defaults"
+        has_h = all("hcount" in d for g in (g1, g2) for _, d in g.nodes(data=True))
+        has_am = all("atom_map" in d for g in (g1, g2) for _, d in g.nodes(data=True))
+        qs = rand_find_queries(rnd, 0, 1)
+        if rnd.random() < 0.35:
+            extra = rand_entry_queries(rnd, 0, 1, True, has_h, has_am, rnd.randint(1, 2))
+            if len(g2) > len(g1):  # the boolean sub-graph tests and get_mappings look for the second graph inside the first
+                extra = [q for q in extra if q["entry"] not in ("sub", "engine.maps")]
+            qs += extra
+        if rnd.random() < 0.4:
+            rnd.shuffle(qs)
+        out.append(([g1, g2], planted, qs, "find-small/" + shape.split(":")[0]))
+    return out
+
+
+def _label_nodes(rnd, g, elems, hmode, charge_p=0.05):
+    out = nx.Graph()
+    nodes = list(g.nodes)
+    rnd.shuffle(nodes)
+    for v in nodes:
+        a = {"element": rnd.choice(elems), "charge": 0 if rnd.random() > charge_p else rnd.choice([1, -1])}
+        if hmode != "absent":
+            a["hcount"] = 1 if hmode == "const" else rnd.choice([0, 0, 1, 2, 3])
+        out.add_node(v, **a)
+    return out
+
+
+MAPPED_ENGINES = [["atom_map", "element"], ["element", "charge", "atom_map"], ["atom_map"], ["element", "atom_map", "hcount"]]
+MAPPED_SUBS = [(["element", "atom_map"], [{"s": "*"}, {"n": 0}]), (["atom_map", "element", "charge"], [{"n": 0}, {"s": "*"}, {"n": 0}]),
+               (["atom_map"], [{"n": 0}])]
+
+
+def large_graph(rnd):
+    """-> (graph, family, mode).  More than 256 nodes and / or more than 256 edges, or just below (250..256: controls).
+
+    NetworkX's VF2 — which the code under test calls — back-tracks exponentially on large sparse graphs as soon as labels repeat
+    (a path of 257 equal atoms already takes minutes), on the unchanged tree.  So only two kinds of large input are generated:
+    mode "mapped": molecule-like graphs (polymers, ring-rich graphs, mixtures of many small molecules, labelled paths, cycles and
+      branched chains) whose atoms all carry a distinct `atom_map` (a fully atom-mapped reaction side), asked only under selections
+      that compare `atom_map`: every assignment VF2 makes is forced;
+    mode "symmetric": complete graphs (any labels: every label-preserving partial assignment extends), cycles of equal atoms and
+      complete bipartite graphs (sides labelled apart or alike), asked under any selection (bipartite: isomorphism questions only)."""
+    r = rnd.random()
+    hmode = rnd.choice(["rand", "rand", "const", "absent"])
+    habs = 1.0 if hmode == "absent" else 0.0
+    if r < 0.17:  # molecule-like polymer: > 256 nodes (and mostly > 256 edges)
+        n = rnd.choice([257, 258, rnd.randint(259, 300)])
+        return matchgen.mol_like(rnd, n, elems=["C", "C", "N", "O"], hcount_absent_p=habs, ring_p=rnd.choice([0.0, 0.5])), "polymer", "mapped"
+    if r < 0.29:  # ring-rich: fewer than 256 nodes, more than 256 edges
+        return matchgen.mol_like(rnd, rnd.randint(215, 252), elems=["C", "C", "N", "O"], hcount_absent_p=habs, ring_p=1.0), "ring-rich", "mapped"
+    if r < 0.35:  # many small molecules (a reaction mixture): more than 256 nodes in total, fewer edges
+        return matchgen.multi_component(rnd, [3] * rnd.randint(86, 96), elems=["C", "N", "O"], hcount_absent_p=habs), "components", "mapped"
+    if r < 0.58:  # paths / cycles / branched chains right at the boundary (257 nodes: 256 / 257 edges)
+        n = rnd.choice([255, 256, 257, 257, 258, 280])
+        kind = rnd.choice(["path", "cycle", "chain", "cycle-uniform"])
+        sk = nx.path_graph(n) if kind in ("path", "chain") else nx.cycle_graph(n)
+        g = _label_nodes(rnd, sk, ["C"] if kind == "cycle-uniform" else ["C", "N", "O"], "const" if kind == "cycle-uniform" and hmode != "absent" else hmode,
+                         0.0 if kind == "cycle-uniform" else 0.05)
+        for u, v in sk.edges:
+            g.add_edge(u, v, order=float(1 + (min(u, v) % 2)) if kind == "chain" else 1.0)
+        if kind == "chain":
+            nxt = n
+            for i in range(5, n, 17):
+                g.add_node(nxt, element="F", charge=0, **({} if hmode == "absent" else {"hcount": 0}))
+                g.add_edge(i, nxt, order=1.0)
+                nxt += 1
+        return g, kind, "symmetric" if kind == "cycle-uniform" else "mapped"
+    if r < 0.84:  # complete graphs: few nodes, 231..351 edges
+        sk = nx.complete_graph(rnd.choice([22, 23, 24, 24, 25, 26, 27]))
+        g = _label_nodes(rnd, sk, rnd.choice([["C"], ["C", "N"], ["C", "N", "O"]]), "const" if hmode != "absent" else "absent", 0.0)
+        o = rnd.choice([1.0, 1.5])
+        for u, v in sk.edges:
+            g.add_edge(u, v, order=o)
+        return g, "complete", "symmetric"
+    a, b = rnd.randint(14, 18), rnd.randint(14, 19)  # complete bipartite
+    sk = nx.complete_bipartite_graph(a, b)
+    two = rnd.random() < 0.6
+    g = nx.Graph()
+    nodes = list(sk.nodes)
+    rnd.shuffle(nodes)
+    for v in nodes:
+        g.add_node(v, element=("N" if v >= a and two else "C"), charge=0, **({} if hmode == "absent" else {"hcount": 1}))
+    for u, v in sk.edges:
+        g.add_edge(u, v, order=1.0)
+    return g, "bipartite", "symmetric"
+
+
+def large_queries(rnd, a, b, mode, fam, has_h, k, both_orders=True, proper=False):
+    """Queries for the pair (a, b) of large graphs (b: the copy / neighbour / pattern), within the selections `large_graph` allows.
+    Every cheap pre-filter flag is asked off and on.  proper: b is strictly smaller (embeddings and sub-graph tests only)."""
+    qs = []
+    kinds = ["find", "find", "engine.iso", "engine.maps", "sub"] + (["giso"] if mode == "symmetric" else [])
+    if fam == "bipartite":
+        kinds.remove("sub")
+    if proper:
+        kinds = ["engine.maps", "sub"]
+    for kind in rnd.sample(kinds, min(k, len(kinds))):
+        x, y = (b, a) if both_orders and rnd.random() < 0.35 else (a, b)
+        if kind == "find":
+            d = rnd.choice([True, None] if mode == "mapped" else [True, None, False])
+            qs += [{"entry": "find", "a": x, "b": y, "use_defaults": d, "fast": f} for f in (False, rnd.choice([True, None]))]
+        elif kind == "giso":
+            qs.append({"entry": "giso", "a": x, "b": y, "use_defaults": rnd.random() < 0.6})
+        elif kind in ("engine.iso", "engine.maps"):
+            na = rnd.choice([s for s in (MAPPED_ENGINES if mode == "mapped" else ENTRY_ENGINES[:6]) if has_h or "hcount" not in s])
+            e = {"node_attrs": na, "edge_attrs": rnd.choice(EDGE_ATTRS), "max_mappings": rnd.choice([1, None, 2])}
+            if kind == "engine.maps":
+                x, y = a, b
+            qs += [{"entry": kind, "a": x, "b": y, "engine": {**e, "wl1_filter": wl}} for wl in rnd.sample([False, True], 2)]
+        else:
+            names, defaults = rnd.choice(MAPPED_SUBS if mode == "mapped" else SUB_SELECTIONS[:6])
+            cfg = {"names": names, "defaults": defaults, "edge_attr": rnd.choice(["order", "order", None]), "induced": rnd.random() < 0.5}
+            which = rnd.choice(["graph_morphism", "SubgraphMatch", "is_subgraph"]) if cfg["edge_attr"] else "graph_morphism"
+            qs += [{"entry": "sub", "which": which, "a": b, "b": a, "cfg": {**cfg, "use_filter": fl}} for fl in rnd.sample([False, True], 2)]
+    return qs
+
+
+def gen_large(ctx, count):
+    """Pairs beyond CPython's small-integer cache with PLANTED answers: a relabelled copy (the bijection is known), the copy
+    with the element of its first node replaced by a symbol that does not occur (no bijection when the element is compared: the
+    label histogram differs; asked only with the edited graph in the position where VF2 rejects it at its first node), the copy
+    with one edge removed / one pendant node added (counts differ: VF2 compares order and degree sequence first), and — mapped
+    graphs — a connected induced sub-pattern that is itself beyond 256 nodes or edges (planted embedding)."""
+    rnd = ctx.rnd
+    out = []
+    for _ in range(count):
+        g, fam, mode = large_graph(rnd)
+        full_attrs(g)
+        if mode == "mapped":  # distinct atom maps, also multi-digit and beyond 256
+            vals = rnd.sample(range(1, rnd.choice([len(g) + 1, 1000, 10 ** 4])), len(g))
+            for v, x in zip(g.nodes, vals):
+                g.nodes[v]["atom_map"] = x
+        else:
+            set_atom_maps(rnd, g, rnd.choice(["absent", "absent", "zero"]))
+        h, f = matchgen.relabelled_copy(rnd, g, base=rnd.choice([None, None, 1000, 10 ** 6]))
+        graphs = [g, h]
+        fmap = [[int(u), int(v)] for u, v in f.items()]
+        planted = [{"from": 0, "to": 1, "kind": "iso", "map": fmap}]
+        has_h = all("hcount" in d for _, d in g.nodes(data=True))
+        big = len(g) > 256
+        qs = [{"entry": "find", "a": 0, "b": 1, "use_defaults": None, "fast": f} for f in (None, False)]  # the documented defaults
+        qs += large_queries(rnd, 0, 1, mode, fam, has_h, 2 if big else 3)
+        # the copy once more, with one label that does not occur in g on the node VF2 looks at first; the same bijection is a
+        # certificate exactly for the selections that do not look at the element
+        hn = h.copy()
+        hn.nodes[next(iter(hn.nodes))]["element"] = rnd.choice(FRESH_ELEMENTS)
+        graphs.append(hn)
+        i = len(graphs) - 1
+        planted.append({"from": 0, "to": i, "kind": "iso", "map": fmap})
+        qs += large_queries(rnd, 0, i, mode, fam, has_h, 1 if big else 2, both_orders=False)
+        if rnd.random() < 0.6:  # counts differ: one edge fewer / one pendant node more
+            hc = h.copy()
+            if rnd.random() < 0.6 and hc.number_of_edges():
+                hc.remove_edge(*rnd.choice(list(hc.edges)))
+                kind = "edge-removed"
+            else:
+                w = max(hc.nodes) + 1
+                hc.add_node(w, **{**dict(hc.nodes[rnd.choice(list(hc.nodes))]), "atom_map": 0})
+                hc.add_edge(rnd.choice([x for x in hc.nodes if x != w]), w, order=1.0)
+                kind = "node-added"
+            graphs.append(hc)
+            j = len(graphs) - 1
+            x, y = rnd.choice([(0, j), (j, 0)])
+            qs += [{"entry": "find", "a": x, "b": y, "use_defaults": rnd.choice([True, None, False]), "fast": fl} for fl in (False, True)]
+            qs.append({"entry": "giso", "a": y, "b": x, "use_defaults": rnd.random() < 0.5})
+            if kind == "edge-removed":  # equal node counts: the engines go through is_isomorphic as well
+                e = {"node_attrs": rnd.choice(ENTRY_ENGINES[:4]), "edge_attrs": rnd.choice(EDGE_ATTRS), "max_mappings": 1}
+                qs += [{"entry": "engine.iso", "a": x, "b": y, "engine": {**e, "wl1_filter": wl}} for wl in (False, True)]
+            ctx.count("large_negative:" + kind)
+        if mode == "mapped" and rnd.random() < 0.5:  # a strictly smaller pattern, itself beyond 256 nodes or edges where g allows
+            keep = set(matchgen.connected_subset(rnd, g, max(1, len(g) - rnd.choice([1, 2, 5, 20]))))
+            sub = nx.Graph()
+            for v in g.nodes:
+                if v in keep:
+                    sub.add_node(v, **dict(g.nodes[v]))
+            for u, v, d in g.subgraph(keep).edges(data=True):
+                sub.add_edge(u, v, **dict(d))
+            pat, fp = matchgen.relabelled_copy(rnd, sub, base=2000)
+            lowered = has_h and rnd.random() < 0.5
+            if lowered:  # host >= pattern hydrogen rule of the engines
+                for v in pat.nodes:
+                    if rnd.random() < 0.2:
+                        pat.nodes[v]["hcount"] = rnd.randint(0, pat.nodes[v]["hcount"])
+            graphs.append(pat)
+            j = len(graphs) - 1
+            planted.append({"from": j, "to": 0, "kind": "induced", "map": [[int(fp[v]), int(v)] for v in sub.nodes]})
+            pq = large_queries(rnd, 0, j, mode, fam, has_h and not lowered, 1 if big else 2, both_orders=False, proper=True)
+            qs += [q for q in pq if not (lowered and q["entry"] == "sub")]
+            ctx.count("large_pattern:planted" + ("+hcount-lowered" if lowered else ""))
+        if rnd.random() < 0.5:
+            rnd.shuffle(qs)
+        ctx.count("large_family:" + fam + "/" + mode)
+        out.append((graphs, planted, qs, "large/" + fam))
+    return out
+
+
 def gen_tiny(ctx):
     labels = [("C", 0), ("C", 1), ("N", 0)]
     gs = []
@@ -1461,6 +2264,8 @@ def run_case_json(ctx, c, tag):
         eval_sub(ctx, [(untyped(c, "child"), untyped(c, "parent"), c["cfg"], "regress")], tag)
     elif c.get("kind") == "giso":
         eval_giso(ctx, [(untyped(c, "g1"), untyped(c, "g2"), c["use_defaults"], "regress")], tag)
+    elif c.get("kind") == "cert":
+        eval_cert(ctx, [([graphio.to_nx(g) for g in c["graphs"]], c.get("planted", []), c["queries"], "regress")], tag, bool(c.get("model")))
     elif c.get("kind") == "search":
         cfg = {k: v for k, v in c["cfg"].items() if k != "pre_filter"}
         eval_search(ctx, [(untyped(c, "host"), untyped(c, "pattern"), c["node_keys"], c["edge_keys"], [cfg], "regress")], tag)
@@ -1478,6 +2283,10 @@ def run(ctx):
         "Driver/GraphMatcherEngine.lean JSON codec, harness/graphio.py encoding, sorting of mapping sets",
         "representation streams: `retype_graph` only re-spells values (checked on every graph: the encoding sent to Lean is unchanged); the "
         "`types` table of a reported case + `apply_types` rebuild the same Python objects on replay",
+        "certificate streams: SynKitModel/FindIso.lean (findGraphIsomorphism; isMonoB / isInducedB / isIsoB; isoInvariants / containInvariants) "
+        "through the driver commands c07.findiso / c07.certificate / c07.invariants; harness `spec_of` (which graph is host / pattern, which keys "
+        "and defaults an entry point compares) — cross-checked on every small case against the enumerating model; `matchgen.relabelled_copy` "
+        "only as the source of a candidate bijection (Lean checks it)",
         "stream prefilter: model SynKitModel/SubgraphSearch.lean through driver command c06.search (its theorems, incl. prefilter_spec / "
         "prefilter_zero_sound / prefilter_zero_lossless / prefilter_sound_or_large, are audited by ./check C06); harness cand_counts "
         "(the documented candidate definition, re-implemented here) only to classify a difference, cross-checked against the model on every case",
@@ -1495,6 +2304,14 @@ def run(ctx):
         "(the SubgraphMatch copy raises TypeError on None — recorded, not gated); a constant-true comparator is read as 'attribute not selected' "
         "and only generated with use_filter=False",
         "a backend name other than 'nx' (incl. 'NX', which the engine lower-cases today) must raise or answer as the model does; mod is not installed, so the rule back-end itself is not exercised",
+        "find_graph_isomorphism: two nx.Graph objects, matchers either the documented defaults (use_defaults=True: element / atom_map / hcount with "
+        "defaults '*', 0, 0 and order with default 1) or none (use_defaults=False: structure only); custom matcher callables, DiGraph / MultiGraph "
+        "inputs and mixed graph types are not modelled",
+        "stream large: NetworkX's VF2, which every entry point calls, has no polynomial bound (a path of 257 equal atoms takes minutes on the "
+        "unchanged tree); the large inputs are therefore restricted to fully atom-mapped molecule-like graphs under selections that compare "
+        "atom_map, and to complete / complete bipartite graphs and cycles of equal atoms; negatives are asked only in the argument position "
+        "where VF2 rejects at its first node or in its order / degree-sequence test; a call that runs into the 60 s watchdog is counted and not "
+        "judged (it can only suppress a gate; none is expected: the generated calls take < 0.5 s)",
         "attribute values are compared as Python compares them (`==`): 1, 1.0, numpy.int64(1), numpy.float64(1.0) are one label, 'C' and "
         "numpy.str_('C') are one label (graphio encodes them to one Lean value); bool is kept apart from int (never mixed under one key); node ids "
         "stay plain ints; attribute selections given as a tuple instead of the documented list must raise or answer as the model does",
@@ -1525,7 +2342,18 @@ def run(ctx):
                     "(400 / 5000 pairs of tiny classes, same class 50% / same size 35%, second graph re-spelled, selections over element / charge / "
                     "hcount); scale (120 / 1200 pairs with 9-12 nodes, ids from 0 / 90 / 1000 / 10^6, max_mappings in {1,6,10,100,None}, half of them "
                     "re-spelled); repr-sub (250 / 2500), repr-giso (100 / 1000), repr-search (150 / 1500): the inputs of the sub-graph, "
-                    "graph_isomorphism and pre-filter generators with values re-labelled consistently (40%), noise attributes (30%) and every graph re-spelled.")
+                    "graph_isomorphism and pre-filter generators with values re-labelled consistently (40%), noise attributes (30%) and every graph re-spelled. "
+                    "Certificate streams: find-small (500 / 6000 pairs <= 8 nodes for find_graph_isomorphism: relabelled copy 40%, one-edit 30% (a third of "
+                    "them an atom_map edit), labels permuted 10%, unrelated 20%; tiny class / symmetric family / multi-component / molecule-like incl. "
+                    "element alphabets H,Hg,He,C,Cl; atom_map absent 40% / 0 20% / partly set 40%; absent atom_map / hcount / order 40%; use_defaults and "
+                    "fast_invariant_check each in {True, False, left at default}, every drawn use_defaults with the quick invariants off and on, both argument "
+                    "orders; 35% also 1-2 queries of the other entry points); large (16 / 120 cases with planted answers: atom-mapped polymers 257-300 "
+                    "nodes 17%, ring-rich 215-252 nodes with > 256 edges 12%, mixtures of 86-96 three-atom molecules 6%, paths / cycles / branched chains "
+                    "/ cycles of equal atoms with 255, 256, 257, 258, 280 nodes 23%, complete graphs K22-K27 26%, complete bipartite 14-19 per side 16%; "
+                    "node ids up to 10^6, atom maps up to 10^4; per case: the relabelled copy (find_graph_isomorphism with everything at its default and "
+                    "with the quick invariants off, plus 2-3 entry points, flags off and on, both orders), the copy with a foreign element on its first "
+                    "node, in 60% the copy with one edge removed or one node added, in 50% of the mapped cases a planted connected sub-pattern with 1, 2, 5 "
+                    "or 20 nodes fewer, hydrogen counts lowered in half of them).")
     ctx.nontrivial_rule = "case distinct as JSON, some graph has >=2 nodes and at least one positive answer (true verdict / non-empty embeddings)"
     build_and_audit(ctx, ["SynKitProofs.Props.C07"], "SynKitProofs/Audit/C07.lean", THEOREMS)
 
@@ -1599,8 +2427,14 @@ def run(ctx):
         eval_giso(ctx, gen_repr_giso(ctx, 100 if ctx.quick else 1000), "repr-giso")
     if not ctx.violations:
         eval_search(ctx, gen_repr_search(ctx, 150 if ctx.quick else 1500), "repr-search")
-    ctx.obligation("correspondence: engine verdicts / embeddings / histories, sub-graph tests, graph_isomorphism, "
-                   "find_subgraph_mappings with the pre-filter on/off impl == model", not ctx.violations)
+    # ---- certificate streams: find_graph_isomorphism; every entry point beyond 256 nodes / edges (after everything else)
+    if not ctx.violations:
+        eval_cert(ctx, gen_find_small(ctx, tiny, 500 if ctx.quick else 6000), "find-small", True)
+    if not ctx.violations:
+        eval_cert(ctx, gen_large(ctx, 16 if ctx.quick else 120), "large", False)
+    ctx.obligation("correspondence: engine verdicts / embeddings / histories, sub-graph tests, graph_isomorphism, find_graph_isomorphism, "
+                   "find_subgraph_mappings with the pre-filter on/off impl == model; beyond 256 nodes / edges impl == what the Lean-checked "
+                   "certificates (planted mapping / invariant) demand", not ctx.violations)
 
 
 def replay(ctx, case):
